@@ -4,6 +4,24 @@ import canon, gen, runner
 from propchecks import common
 from propchecks.relprops import rel_batch, accepted
 
+def strip_cont(a):
+    """`a` without its line continuations (a backslash-newline whose backslash is not itself escaped and
+    not inside single quotes), and whether there was one"""
+    out = []; i = 0; sq = False; had = False
+    while i < len(a):
+        c = a[i]
+        if sq:
+            if c == "'": sq = False
+            out.append(c); i += 1
+        elif c == '\\' and i + 1 < len(a):
+            if a[i + 1] == '\n': had = True
+            else: out.append(a[i:i + 2])
+            i += 2
+        else:
+            if c == "'": sq = True
+            out.append(c); i += 1
+    return ''.join(out), had
+
 def run(ctx):
     tier, seed, findings = ctx['tier'], ctx['seed'], ctx['findings']
     quick = tier == 'quick'
@@ -61,8 +79,9 @@ def run(ctx):
                 tags = ''
                 if case[0] == 'C07':
                     first = item[3][0]
-                    if '\n' in a.replace('\\\n', ''): tags += '+multiline'
-                    if '\\\n' in a: tags += '+cont'
+                    stripped, had_cont = strip_cont(a)
+                    if '\n' in stripped: tags += '+multiline'
+                    if had_cont: tags += '+cont'
                     if a.endswith(' ') or a.endswith('\t'): tags += '+trailing-blank'
                     if first.startswith('OK [{kind="list"') or a.rstrip().endswith(('&', ';')): tags += '+list'
                     if '`' in case[2][case[1][0]:case[1][0] + 1]: tags += '+backquote'
